@@ -8,7 +8,7 @@ for d in sorted(glob.glob('/verif/seeded/C*')):
     rows[wave].append((os.path.basename(d), m.get('site', '?'), (m.get('summary', '') or '').replace('\n', ' ')[:150],
                        (m.get('needs_to_manifest', '') or '').replace('\n', ' ')[:120], ', '.join(m.get('caught_by', [])) or '**missed**',
                        m.get('not_caught_reason', ''), ', '.join(m.get('caught_by_initial', []) + ['exit 2: ' + x for x in m.get('caught_by_initial_exit2', [])]) or 'missed'))
-FROZEN = {'heldout': '44b4fcb', 'heldout2': 'a476181', 'heldout3': '158d893', 'heldout4': 'a881acb'}
+FROZEN = {'heldout': '44b4fcb', 'heldout2': 'a476181', 'heldout3': '158d893', 'heldout4': 'bff74e2'}
 for wave, fn, title in (('dev', 'SWEEP.md', 'Development wave'), ('heldout', 'HELDOUT.md', 'Held-out wave'), ('heldout2', 'HELDOUT2.md', 'Second held-out wave'), ('heldout3', 'HELDOUT3.md', 'Third held-out wave'), ('heldout4', 'HELDOUT4.md', 'Fourth held-out wave')):
     if not rows[wave]:
         continue
